@@ -47,6 +47,10 @@ def run(tier, seed):
     src = open(os.path.join(ROOT, 'harness', 'c07_hist.py')).read()
     hs, batch = [], Batch()
     T_ = 170 if quick else 1500
+    import random
+    rnd = random.Random(seed)
+    ops3 = tuple(sorted(rnd.sample(range(14), 4)))
+    sets3 = tuple(sorted({0, 14, 15} | set(rnd.sample(range(1, 14), 3))))
     try:
         for t in range(3):
             s_rel = src.replace('__T__', str(t)).replace('__OP1__', 'None').replace('__KNOWN_NB__', 'True')
@@ -59,10 +63,13 @@ def run(tier, seed):
                 'override_formula_ok': 'template %d, formula cell B1 overridden by each of 8 pool values' % t,
                 'outputs_ok': 'template %d, all 127 non-empty output subsets x %s pool values' % (t, '3' if quick else '8')})
             for op1 in range(14):
-                h = Harness(ck, 'c07_hist_t%d_op%d' % (t, op1), src.replace('__T__', str(t)).replace('__OP1__', str(op1)).replace('__KNOWN_NB__', 'True')); hs.append(h)
+                s_h = src.replace('__T__', str(t)).replace('__OP1__', str(op1)).replace('__KNOWN_NB__', 'True')
+                if not quick:   # third operation and observed override set from seeded samples (every first and second operation)
+                    s_h = s_h.replace('sel(p0, p1, p2, p3) < M.NOPS and sel(k0, k1, k2, k3) < NS', 'sel(p0, p1, p2, p3) in %r and sel(k0, k1, k2, k3) in %r' % (ops3, sets3))
+                h = Harness(ck, 'c07_hist_t%d_op%d' % (t, op1), s_h); hs.append(h)
                 batch.add(h, T_, only=['history2_ok'] if quick else ['history3_ok'],
-                          bounds='template %d, history starting with operation %d, %s, then one of 15 override sets; compared with a fresh model' % (
-                              t, op1, 'any second operation of 14' if quick else 'any second and third operation of 14'))
+                          bounds='template %d, history starting with operation %d, %s, then the override sets (16 in the quick tier); compared with a fresh model' % (
+                              t, op1, 'any second operation of 14' if quick else 'any second operation of 14, third operation from %r, override sets %r' % (ops3, sets3)))
         batch.run()
     finally:
         for h in hs:
